@@ -235,6 +235,11 @@ use crate::traits::{MultiscalarMul, VartimeMultiscalarMul};
 #[no_mangle] #[inline(never)] pub fn vp_g_straus_ct_2(s: &[Scalar; 2], p: &[EdwardsPoint; 2]) -> EdwardsPoint { ssm::straus::Straus::multiscalar_mul(s.iter(), p.iter()) }
 #[cfg(feature = "alloc")]
 #[no_mangle] #[inline(never)] pub fn vp_g_straus_ct_3(s: &[Scalar; 3], p: &[EdwardsPoint; 3]) -> EdwardsPoint { ssm::straus::Straus::multiscalar_mul(s.iter(), p.iter()) }
+// the PUBLIC constant-time entry point on slices of any length (dispatch included): C04 / C14
+#[cfg(feature = "alloc")]
+#[no_mangle] #[inline(never)] pub fn vp_g_multiscalar_mul(s: &[Scalar], p: &[EdwardsPoint]) -> EdwardsPoint { use crate::traits::MultiscalarMul; EdwardsPoint::multiscalar_mul(s.iter(), p.iter()) }
+#[cfg(feature = "alloc")]
+#[no_mangle] #[inline(never)] pub fn vp_g_ris_multiscalar_mul(s: &[Scalar], p: &[crate::ristretto::RistrettoPoint]) -> crate::ristretto::RistrettoPoint { use crate::traits::MultiscalarMul; crate::ristretto::RistrettoPoint::multiscalar_mul(s.iter(), p.iter()) }
 #[cfg(feature = "alloc")]
 #[no_mangle] #[inline(never)] pub fn vp_g_straus_ct_0() -> EdwardsPoint { let s: [Scalar; 0] = []; let p: [EdwardsPoint; 0] = []; ssm::straus::Straus::multiscalar_mul(s.iter(), p.iter()) }
 #[cfg(feature = "alloc")]
